@@ -426,6 +426,10 @@ def _b2_to_b4(ctx, R, PR, prog, gc, ga, gm):
     # (F1-F6 of C06: the require line covers every tag used, values are quoted and escaped)
     from .c06 import factory_rules
     factory_rules(ctx, R, PR)
+    # ... and names, descriptions, order and requires must come back from the loader as they went out (N1-N4 of C11): the getters
+    # find a reloaded filter by its name
+    from .c11 import save_load_rules
+    save_load_rules(ctx, R, PR)
     # ---- B4 -----------------------------------------------------------------------
     ctx.rule("B4", "the tree walk the readers rely on is pre-order: a `not` is directly followed by the test it wraps")
     cmdcls = prog.cls("Command")
